@@ -248,7 +248,7 @@ def _default_term(zs):
         return z3.IntVal(0)
     if zs == z3.BoolSort():
         return z3.BoolVal(False)
-    if z3.is_array_sort(zs):
+    if zs.kind() == z3.Z3_ARRAY_SORT:
         return z3.K(zs.domain(), _default_term(zs.range()))
     return z3.Const(f'default_{zs.name()}', zs)
 
